@@ -60,3 +60,6 @@ Definition prewarp (fc fs : R) : R := tan (PI * fc / fs).
 
 (** requested EQ gain in decibels -> A (amplitude A^2 = 10^(dB/20)) *)
 Definition eq_A (gain_db : R) : R := Rpower 10 (gain_db / 40).
+
+(** z^n *)
+Fixpoint Cpow (z : C) (n : nat) : C := match n with O => c1 | S n' => z * Cpow z n' end.
